@@ -655,8 +655,30 @@ func c01CastToBool(r *core.Run, p *core.Program) {
 	// (1) empty -> false
 	okEmpty := false
 	for _, b := range fn.Blocks {
-		if iff, ok := b.Instrs[len(b.Instrs)-1].(*ssa.If); ok && an.Expr(iff.Cond) == "(builtin.len(param#0) == 0)" && b == fn.Blocks[0] {
-			if ret, ok := b.Succs[0].Instrs[len(b.Succs[0].Instrs)-1].(*ssa.Return); ok && an.Expr(ret.Results[0]) == "false" {
+		if iff, ok := b.Instrs[len(b.Instrs)-1].(*ssa.If); ok && b == fn.Blocks[0] {
+			// whichever way the test is written: the edge on which the item is empty leads to "return false"
+			x, y, rel, isCmp := an.CondCmp(iff.Cond)
+			if !isCmp || an.Expr(x) != "builtin.len(param#0)" {
+				continue
+			}
+			k, isC := an.ConstOf(y)
+			if !isC || !k.IsInt64() {
+				continue
+			}
+			emptyTrue, emptyFalse := relHolds(rel, 0, k.Int64()), true
+			for n := int64(1); n <= 3; n++ {
+				if relHolds(rel, n, k.Int64()) == emptyTrue {
+					emptyFalse = false // the test does not separate the empty item from the others
+				}
+			}
+			if !emptyFalse {
+				continue
+			}
+			succ := b.Succs[1]
+			if emptyTrue {
+				succ = b.Succs[0]
+			}
+			if ret, ok := succ.Instrs[len(succ.Instrs)-1].(*ssa.Return); ok && an.Expr(ret.Results[0]) == "false" {
 				okEmpty = true
 			}
 		}
